@@ -763,11 +763,11 @@ def rebuild(rep):
 
 
 class Case:
-    __slots__ = ("stream", "key", "schema", "data", "expect", "real_save", "real_read", "model_save", "model_read")
+    __slots__ = ("stream", "key", "schema", "data", "expect", "real_save", "real_read", "model_save", "model_read", "domain")
 
     def __init__(self, stream, key, schema, data, expect):
         self.stream, self.key, self.schema, self.data, self.expect = stream, key, schema, data, expect
-        self.real_save = self.real_read = self.model_save = self.model_read = None
+        self.real_save = self.real_read = self.model_save = self.model_read = self.domain = None
 
 
 def process(cases, res, tag):
@@ -799,6 +799,12 @@ def process(cases, res, tag):
             rreqs.append(("scsv-read", reqs[i][1], "t" + hx(text)))
     for i, out in zip(ridx, run_oracle_requests(rreqs)):
         cases[i].model_read = parse_table(out)
+    # which hypotheses of the Lean round-trip theorem does the input violate? (executable `domainFailures`,
+    # proved sound: an empty list implies the round trip in the model)
+    didx = [i for i, c in enumerate(cases) if c.expect == "roundtrip"]
+    douts = run_oracle_requests([("scsv-domain", reqs[i][1], reqs[i][2]) for i in didx])
+    for i, out in zip(didx, douts):
+        cases[i].domain = out.split()[1:]
     for c in cases:
         rep = summarise(c.schema, c.data)
         rep["case"] = c.key
@@ -822,6 +828,14 @@ def process(cases, res, tag):
         res.count(f"{c.stream}:outcome:{outcome}")
         if c.expect == "roundtrip":
             want = expected_table(c.schema, c.data)
+            inside = c.domain == []
+            res.count(f"{c.stream}:proved_domain:" + ("inside" if inside else "outside:" + ",".join(c.domain)))
+            if inside and (c.real_save[0] == "err" or c.real_read != want):
+                # the theorem (about the model) promises the round trip here: the model and the code disagree
+                res.mismatch("proved domain vs implementation", rep, _short(c.real_read) if c.real_read else c.real_save[1],
+                             "domainFailures = [] (save_read_roundtrip applies)", note=c.key)
+            if c.stream == "hypothesis" and c.key.startswith("roundtrip:") and inside:
+                res.mismatch("hypothesis replay inside the proved domain", rep, c.key, "domainFailures = []")
             if c.real_save[0] == "err":
                 res.violation(c.key, f"valid schema and representable data refused by save_scsv with {c.real_save[1]}", rep)
             elif c.real_read != want:
